@@ -421,7 +421,7 @@ def correspond(ctx):
             continue
         tc = tcases[i]
         c.mismatches.append({"kind": "tokenisation", "what": "character-level model and real reader differ (%s)"
-                             % {1: "result class", 2: "stored arrays / LoadYear values"}.get(code, code),
+                             % {1: "result class", 2: "stored arrays / LoadYear values", 3: "optional columns SUND / VERD / ETNULL of the year file"}.get(code, code),
                              "layout": tc["layout"], "numheader": tc["nh"], "real_class": tres[i]["class"], "mutation": tc.get("mut"),
                              "file": tc["text"][:600]})
     pm, pf = _run_preco(ctx)
